@@ -7,7 +7,7 @@ ROOT = os.path.dirname(os.path.dirname(os.path.realpath(__file__)))
 # property -> (technique, level text, level note, rule, assumptions)
 T = {
  "C01": ("rapid generators over the pinned schema; round-trip oracle against an independent value tree",
-         "Generated canonical values of all 170 types (plus every one of the 226 registered discriminator keys enumerated) are encoded and decoded by the library; the decoded value must equal the input bit-for-bit with the computed length/checksum fields replaced by values computed by an independent interpreter. Sampling, not absence.",
+         "Generated canonical values of all 170 types (plus every one of the 226 registered discriminator keys enumerated) are encoded and decoded by the library; the decoded value must equal the input bit-for-bit with the computed length/checksum fields replaced by values computed by an independent interpreter. Values include lengths around m*2^k and 10^k, repeated values/wire images, lists of one repeated boundary value, numbers mirroring lengths; a third of the cases are preceded by 1-3 other library calls in the same process (carried state). Sampling, not absence.",
          "Trusts the pinned schema snapshot for field kinds/widths (generator domain) and Go reflection for moving values in and out of the structs.",
          "case = (type, canonical value); non-trivial if it has text shorter than its field, an interior/other-side pad byte, a negative or NaN number, a list of length != 1, or a dynamic part; distinct by hash of (type, encoding)",
          ["list lengths up to 65535 for 16-bit counts; 32-bit-count lists and texts bounded at 70000"]),
@@ -22,12 +22,12 @@ T = {
          "non-trivial if the value renders differently under the two byte orders (a multi-byte integer that is not a byte palindrome); list cases with >=2 elements and object lists counted as classes",
          []),
  "C04": ("stateful rapid histories (prior buffer content, partial consumption) with interpreter-located frame regions",
-         "Frames of the four protocols with a self-computed length are encoded into buffers with generated history; the wire length field, the body bytes and the object's length field are compared with what the harness measures on exactly the bytes this Encode appended.",
+         "Frames of the four protocols with a self-computed length are encoded into buffers with generated history (earlier frames, partial consumption, drained and reused, pre-sized and almost consumed so that the buffer slides its content in the middle of the Encode, frames sized to hit that, a checksum service unregistered); the wire length field, the body bytes and the object's length field are compared with what the harness measures on exactly the bytes this Encode appended.",
          "Frame regions are located by the pinned schema.",
          "non-trivial if the frame was encoded at an offset > 0 of the unread region or after a partial consume, or its body is variable-length/empty/absent, or the caller's stale length differs from the true one",
          []),
  "C05": ("stateful rapid histories + reference checksum implementations (Rocksoft-model CRC, 64-bit byte sum) + independent receiver",
-         "Checksummed frames (SSE, SZSE, sample) are encoded into buffers with generated history; the trailer must equal the reference algorithm over exactly this frame's bytes after the length patch, the object must report it, and an interpreter-side receiver must accept the frame.",
+         "Checksummed frames (SSE, SZSE, sample) are encoded into buffers with generated history; the trailer must equal the reference algorithm over exactly this frame's bytes after the length patch, the object must report it, and an interpreter-side receiver must accept the frame. Frames whose checksum is 0, all-ones or the caller's stale value are constructed for every registered body type (CRC-32 solved over GF(2) for a free body field).",
          "Reference algorithms are the harness' own.",
          "non-trivial if the buffer held >=1 unread byte when the frame was encoded or the stale length/checksum differed from the correct one",
          []),
@@ -47,12 +47,12 @@ T = {
          "non-trivial if the accepted string is not in the image of the library's encoder on canonical values (differs from the encoding of its canonical re-decode) or carries non-canonical pad/NaN/stale computed fields",
          []),
  "C09": ("hostile-input generation located through the schema (rapid) + native coverage-guided fuzzing (thorough), under an address-space limit with a last-case file",
-         "Every decoder is fed truncations, bit flips, maximal counts/lengths, unknown keys and random bytes; the call must return (nil or error). Panics are caught in-process; aborts/hangs are caught by the driver from the last-case file.",
+         "Every decoder is fed truncations, bit flips, hostile counts/lengths (max, 2^k, m*2^k, products that wrap), blank/zero/near-miss/number-syntax discriminators, random bytes and valid messages up to the generator cap, from exact-size and spare-capacity buffers, optionally after other calls in the same process; the call must return (nil or error). Panics are caught in-process; aborts/hangs are caught by the driver from the last-case file.",
          "Watchdog 20 s per case on inputs <= 64 KiB; address-space limit 6 GiB per shard.",
          "non-trivial if the input is rejected after at least one field was read, or accepted, or carries a maximal prefix; distinct by hash of (type, bytes)",
          []),
  "C10": ("schema-enumerated max-prefix inputs + rapid hostile inputs, allocation oracle via runtime.MemStats",
-         "TotalAlloc delta around each Decode must stay below 32 KiB + 64 x len(input); process death under the address-space limit is a violation.",
+         "TotalAlloc delta around each Decode must stay below 32 KiB + 64 x len(input) on schema-enumerated hostile prefixes (every count/length of every type at max, 2^k, m*2^k ...), generated hostile inputs, inputs in buffers with spare capacity, and inputs after earlier valid decodes in the same process; process death under the address-space limit is a violation.",
          "Bound constants justified in DESIGN.md (6x margin above the worst legitimate shape, half the smallest forbidden allocation).",
          "non-trivial if a count/length prefix in the input claims more than the bytes present",
          []),
@@ -92,7 +92,7 @@ T = {
          "non-trivial if the case contains an absent part or is a zero/constructor value; programs = number of types exercised",
          []),
  "C18": ("boundary-value generation around each prefix maximum, primitive and message level",
-         "Each prefixed writer at prefix widths 8 and 16 bits with lengths max-1, max, max+1, max+k, 2max+2 must error iff length > max and round-trip otherwise; every message field with a 16-bit prefix is driven to max and max+1.",
+         "Each prefixed writer at prefix widths 8 and 16 bits (built-in and defined prefix types) with lengths max-1, max, max+1, max+k, 2max+2 must error iff length > max and round-trip otherwise; an object list whose element refuses must report it; every 16-bit-prefixed field of every message, at top level and nested through parts, list elements and every body/extension type, is driven to max and max+1.",
          "32-bit prefixes are covered only through the shared generic code path (4 GiB values are not generated).",
          "non-trivial if the length is within 2 of a prefix maximum or beyond it",
          ["uint32-prefixed fields are not driven beyond 2^32-1"]),
@@ -102,7 +102,7 @@ T = {
          "non-trivial if the history has >=2 operations on the same name overlapping in time; distinct by hash of the recorded history",
          ["schedules are sampled, not enumerated"]),
  "C20": ("rapid-generated batches run sequentially then in parallel goroutines, differential on results, under the race detector",
-         "Batches of (type, value) pairs over all protocols are encoded/decoded sequentially for reference, then by G goroutines on their own objects and buffers; every result must equal the sequential one; built with -race.",
+         "Batches of (type, value) pairs over all protocols are encoded/decoded sequentially for reference, then by G in {2,8,32} goroutines on their own objects and buffers, plus one crowd of 2500 goroutines per shard kept inside the library for 1.5 s; every result must equal the sequential one; built with -race.",
          "Schedules are sampled.",
          "non-trivial if the batch mixes >=3 protocols, >=1 checksummed frame and >=1 extended message; distinct by hash of the batch",
          ["schedules are sampled, not enumerated"]),
